@@ -190,12 +190,13 @@ class Injector:
             cp.compile_expression, ad.compile_jacobian, ad.compile_hessian = real_ce, real_cj, real_ch
 
 
-def _solve(P, method, in_block):
+def _solve(P, method, in_block, kw=None):
     from optyx import increased_recursion_limit
+    kw = kw or {}
     if in_block:
         with increased_recursion_limit(3000):
-            return P.solve(method=method)
-    return P.solve(method=method)
+            return P.solve(method=method, **kw)
+    return P.solve(method=method, **kw)
 
 
 def _snapshot(sol):
@@ -288,6 +289,11 @@ def _check_one(case):
                 _STATS["sites_sampled"] += 1
                 classes.append("enumeration:spread")
             any_nontrivial = False
+            # half of the cases: the caller keeps ONE options dict; the faulted attempts are made with it and an iteration limit,
+            # the recovery solve with the same dict and no limit (a no-op option, so the baseline is unchanged)
+            shared = {"disp": False} if len(desc) % 2 == 0 else None
+            if shared is not None:
+                classes.append("shared-options-dict")
             for k in ks:
                 P, _ = make_problem(case)
                 if case["prior_solve"]:
@@ -308,7 +314,7 @@ def _check_one(case):
                     outcome = None
                     try:
                         with inj.installed():
-                            sol = _solve(P, method, in_block)
+                            sol = _solve(P, method, in_block, None if shared is None else {"options": shared, "maxiter": 50})
                         outcome = ("returned", sol.status.value)
                     except BaseException as ex:  # noqa: the injected class may be KeyboardInterrupt
                         if not inj.fired:
@@ -341,7 +347,7 @@ def _check_one(case):
                         any_nontrivial = True
                 # recovery
                 try:
-                    rec = _snapshot(_solve(P, method, in_block))
+                    rec = _snapshot(_solve(P, method, in_block, None if shared is None else {"options": shared}))
                 except BaseException as ex:  # noqa
                     return Result.violation(f"recovery-raises:{exc_label(ex)}", f"after faults {faults}: next solve raised {ex!r}; {desc}", classes)
                 if not _same(rec, base):
